@@ -146,6 +146,12 @@ def parse_template(path, defines=None):
             cur_splice = {"at": f"{pre}closure[{toks[0]}].header", "_lines": []}
             if "types" in kv:
                 cur_splice["types"] = [t.strip() for t in kv["types"].split(";")]
+        elif line.startswith("@closureprelude "):
+            flush_splice()
+            toks = shlex.split(line[len("@closureprelude "):])
+            kv = _kv(toks[1:])
+            pre = kv.get("in", "")
+            cur_splice = {"at": f"{pre}closure[{toks[0]}].prelude", "_lines": []}
         elif line.startswith("@loopiter "):
             flush_splice()
             toks = shlex.split(line[len("@loopiter "):])
@@ -178,7 +184,7 @@ def _activate_canary(text):
     return "\n".join(out)
 
 
-def generate(unit, template, outdir, canary=False, defines=None):
+def generate(unit, template, outdir, canary=False, defines=None, subst=None):
     """Build <outdir>/<unit>[_canary].rs.  Returns metadata dict."""
     ensure_extractor()
     os.makedirs(outdir, exist_ok=True)
@@ -186,6 +192,17 @@ def generate(unit, template, outdir, canary=False, defines=None):
     if canary:
         defines.add("CANARY")
     segs = parse_template(template, defines)
+    if subst:
+        def sub(t):
+            for k, v in subst.items():
+                t = t.replace(f"@@{k}@@", v)
+            return t
+        for kind, sg in segs:
+            if kind == "text":
+                sg[:] = [sub(l) for l in sg]
+            else:
+                for sp in sg["splices"]:
+                    sp["text"] = sub(sp.get("text", ""))
     # group extract requests per file, keep order
     by_file = {}
     for kind, s in segs:
